@@ -9,6 +9,7 @@ EPS = 1e-6
 SWS = ['s_no', 's_nc']
 NUM = {'s_no': '1', 's_nc': '2'}
 _H = {}
+TRACE_HIDS = '{' + ', '.join('"h%d_%d"' % (a, b) for a in (1, 2, 3) for b in range(1, 17)) + '}'
 
 
 def cfg_text(spec, held, maxtime, maxops, hids, holds, trace=False):
@@ -67,6 +68,7 @@ class SwitchRun:
         self.consumed = set()
         self.pos = 0
         self.keys = {}      # id -> (switch name, callback, state, ms_real)
+        self.gen = {}       # schedule id -> registrations so far (every registration gets a fresh id)
 
     def units_now(self):
         x = (self.m.clock.get_time() - self.t0) * 1000.0 / self.U
@@ -90,12 +92,12 @@ class SwitchRun:
             q[s] = [bool(self.sc.is_active(sw)), bool(self.sc.is_active(sw, ms=two)), bool(self.sc.is_inactive(sw, ms=two))]
         return q
 
-    def mk_cb(self, hid, timed):
+    def mk_cb(self, hid, timed, rid):
         def cb():
             if timed:
-                self.ev.append({'op': 'tfire', 'id': hid, 't': self.units_now()})
+                self.ev.append({'op': 'tfire', 'id': rid, 't': self.units_now()})
                 return
-            self.ev.append({'op': 'call', 'id': hid})
+            self.ev.append({'op': 'call', 'id': rid})
             idx = None
             for i in range(self.pos, len(self.sched)):
                 s = self.sched[i]
@@ -117,18 +119,20 @@ class SwitchRun:
         if op == 'add':
             if s['id'] in self.keys:
                 return
-            cb = self.mk_cb(s['id'], s['ms'] > 0)
+            self.gen[s['id']] = self.gen.get(s['id'], 0) + 1
+            rid = '%s_%d' % (s['id'], self.gen[s['id']])
+            cb = self.mk_cb(s['id'], s['ms'] > 0, rid)
             ms = s['ms'] * self.U
             self.sc.add_switch_handler(s['sw'], cb, state=s['state'], ms=ms)
-            self.keys[s['id']] = (s['sw'], cb, s['state'], ms)
-            self.ev.append({'op': 'add', 'id': s['id'], 'sw': s['sw'], 'state': s['state'], 'ms': s['ms'],
+            self.keys[s['id']] = (s['sw'], cb, s['state'], ms, rid)
+            self.ev.append({'op': 'add', 'id': rid, 'sw': s['sw'], 'state': s['state'], 'ms': s['ms'],
                             'nested': bool(s.get('nested'))})
         elif op == 'remove':
             if s['id'] not in self.keys:
                 return
-            sw, cb, state, ms = self.keys.pop(s['id'])
+            sw, cb, state, ms, rid = self.keys.pop(s['id'])
             self.sc.remove_switch_handler(sw, cb, state=state, ms=ms)
-            self.ev.append({'op': 'remove', 'id': s['id'], 'nested': bool(s.get('nested'))})
+            self.ev.append({'op': 'remove', 'id': rid, 'nested': bool(s.get('nested'))})
         elif op == 'report':
             self.ev.append({'op': 'report', 'sw': s['sw'], 'v': s['v'], 'logical': bool(s['logical'])})
             if s['logical']:
@@ -175,7 +179,7 @@ class SwitchRun:
         finally:
             _H['sink'][0] = None
             for hid in list(self.keys):
-                sw, cb, state, ms = self.keys.pop(hid)
+                sw, cb, state, ms, _rid = self.keys.pop(hid)
                 self.sc.remove_switch_handler(sw, cb, state=state, ms=ms)
         return self.ev
 
@@ -235,7 +239,7 @@ def run(ctx):
         jobs += [(s, u, False) for s in handmade(u)] + [(s, u, True) for s in handmade(u)]
         traces = harness.pmap(exec_schedule, jobs, chunk=8)
         with open(wd + '/Trace.cfg', 'w') as f:
-            f.write(cfg_text('TSpec', hu, 10 ** 6, 10 ** 6, '{"h1", "h2", "h3"}', '{}', trace=True))
+            f.write(cfg_text('TSpec', hu, 10 ** 6, 10 ** 6, TRACE_HIDS, '{}', trace=True))
         with open(wd + '/SwitchesTraceU.tla', 'w') as f:
             f.write('---- MODULE SwitchesTraceU ----\nEXTENDS SwitchesTrace\nTLongAgo == %d\n====\n' % (-(10 ** 8) // u))
         v = tlc.validate_traces(wd, 'SwitchesTraceU', 'Trace.cfg', traces)
@@ -262,7 +266,7 @@ def replay(ctx, data):
     print('replay trace:', tr['ev'])
     wd = tlc.prepare(ctx.scratch, 'Switches', 'switches')
     with open(wd + '/Trace.cfg', 'w') as f:
-        f.write(cfg_text('TSpec', held_units(u), 10 ** 6, 10 ** 6, '{"h1", "h2", "h3"}', '{}', trace=True))
+        f.write(cfg_text('TSpec', held_units(u), 10 ** 6, 10 ** 6, TRACE_HIDS, '{}', trace=True))
     with open(wd + '/SwitchesTraceU.tla', 'w') as f:
         f.write('---- MODULE SwitchesTraceU ----\nEXTENDS SwitchesTrace\nTLongAgo == %d\n====\n' % (-(10 ** 8) // u))
     v = tlc.validate_traces(wd, 'SwitchesTraceU', 'Trace.cfg', [tr])
